@@ -6,7 +6,7 @@
 # <seeddir> holds patch.diff, demo.rs, meta.json {crate, demo_path, cargo_args}
 set -u
 mode=$1; sd=$(realpath "$2"); shift 2
-WT=/tmp/seedconfirm
+WT=${SEED_WT:-/tmp/seedconfirm}
 export CARGO_NET_OFFLINE=true RUST_BACKTRACE=0
 j() { python3 -c "import json,sys; print(json.load(open('$sd/meta.json')).get('$1',''))"; }
 prep() {
